@@ -147,6 +147,11 @@ impl<'a, Key, Freq> FrequencyCounterBasedMinHeapSamples<'a, Key, Freq>
         self.sample.len()
     }
 
+    #[cfg(feature = "verif_hooks")]
+    pub(crate) fn verif_snapshot(&self) -> Vec<crate::cache::verif::SampledKeyView> {
+        self.sample.iter().map(|key| crate::cache::verif::SampledKeyView { id: key.id, weight: key.weight, estimate: key.estimated_frequency }).collect()
+    }
+
     /// Return an initial sample with size = `sample_size`
     fn initial_sample(
         source: &DashMap<KeyId, WeightedKey<Key>>,
@@ -180,6 +185,8 @@ pub(crate) struct CacheWeight<Key>
     weight_used: RwLock<Weight>,
     key_weights: DashMap<KeyId, WeightedKey<Key>>,
     stats_counter: Arc<ConcurrentStatsCounter>,
+    #[cfg(feature = "verif_hooks")]
+    verif: Arc<crate::cache::verif::Instance>,
 }
 
 impl<Key> CacheWeight<Key>
@@ -191,6 +198,8 @@ impl<Key> CacheWeight<Key>
             weight_used: RwLock::new(0),
             key_weights: DashMap::with_capacity_and_shard_amount(cache_weight_config.capacity(), cache_weight_config.shards()),
             stats_counter,
+            #[cfg(feature = "verif_hooks")]
+            verif: crate::cache::verif::current(),
         }
     }
 
@@ -209,6 +218,8 @@ impl<Key> CacheWeight<Key>
 
     pub(crate) fn add(&self, key_description: &KeyDescription<Key>) {
         self.key_weights.insert(key_description.id, WeightedKey::new(key_description.clone_key(), key_description.hash, key_description.weight));
+        #[cfg(feature = "verif_hooks")]
+        self.verif.point(crate::cache::verif::Site::CacheWeightAddAfterInsert);
         let mut guard = self.weight_used.write();
         *guard += key_description.weight;
 
@@ -217,6 +228,8 @@ impl<Key> CacheWeight<Key>
 
     pub(crate) fn update(&self, key_id: &KeyId, weight: Weight) -> bool {
         if let Some(mut existing) = self.key_weights.get_mut(key_id) {
+            #[cfg(feature = "verif_hooks")]
+            self.verif.point(crate::cache::verif::Site::CacheWeightUpdateInEntry);
             {
                 let mut guard = self.weight_used.write();
                 *guard += weight - existing.weight;
@@ -236,8 +249,12 @@ impl<Key> CacheWeight<Key>
     pub(crate) fn delete<DeleteHook>(&self, key_id: &KeyId, delete_hook: &DeleteHook)
         where DeleteHook: Fn(Key) {
         if let Some(weight_by_key_hash) = self.key_weights.remove(key_id) {
+            #[cfg(feature = "verif_hooks")]
+            self.verif.point(crate::cache::verif::Site::CacheWeightDeleteAfterRemove);
             let mut guard = self.weight_used.write();
             *guard -= weight_by_key_hash.1.weight;
+            #[cfg(feature = "verif_hooks")]
+            self.verif.point(crate::cache::verif::Site::CacheWeightDeleteInLock);
             delete_hook(weight_by_key_hash.1.key);
 
             self.stats_counter.remove_weight(weight_by_key_hash.1.weight as u64);
@@ -262,6 +279,16 @@ impl<Key> CacheWeight<Key>
         self.key_weights.clear();
         let mut guard = self.weight_used.write();
         *guard = 0;
+    }
+
+    #[cfg(feature = "verif_hooks")]
+    pub(crate) fn verif_entries(&self) -> Vec<crate::cache::verif::WeightEntryView<Key>> {
+        self.key_weights.iter().map(|pair| crate::cache::verif::WeightEntryView {
+            id: *pair.key(),
+            key: pair.value().key.clone(),
+            hash: pair.value().key_hash,
+            weight: pair.value().weight,
+        }).collect()
     }
 
     fn update_weight_stats(&self, new_weight: Weight, existing_weight: Weight) {
